@@ -50,6 +50,7 @@ type World struct {
 	extraTypeConsts map[string]int
 	defIndex map[string]*definer
 	GlobalInvs []*GlobalInv
+	fnByConst map[string]*ssa.Function
 }
 
 type dtDecl struct {
@@ -381,6 +382,23 @@ func (w *World) ResolveType(te *TypeExpr, pkgName string) (SType, error) {
 			return SType{}, err
 		}
 		return SType{Set: &e}, nil
+	case "func":
+		var ps, rs []*types.Var
+		for _, p := range te.Params {
+			pt, err := w.ResolveType(p, pkgName)
+			if err != nil {
+				return SType{}, err
+			}
+			ps = append(ps, types.NewVar(0, nil, "", pt.G))
+		}
+		for _, r := range te.Results {
+			rt, err := w.ResolveType(r, pkgName)
+			if err != nil {
+				return SType{}, err
+			}
+			rs = append(rs, types.NewVar(0, nil, "", rt.G))
+		}
+		return SType{G: types.NewSignatureType(nil, nil, nil, types.NewTuple(ps...), types.NewTuple(rs...), false)}, nil
 	case "name":
 		if te.Pkg == "" {
 			if te.Name == "Type" {
